@@ -523,6 +523,15 @@ func c06Eval(c *fw.Ctx, data any) {
 		return
 	}
 	c06Check(c, v, 0)
+	if cs.Mode == "ctrl" && c.Index%4 == 2 {
+		// action-list instructions switched between write/apply/clear after they were filled (a reused template)
+		for _, apply := range retypeInstructions(v) {
+			if p, _, _ := fw.Recover(func() { apply() }); !p {
+				c.Count("retyped_instructions", 1)
+				c06Check(c, v, 0)
+			}
+		}
+	}
 	if cs.Mode == "ctrl" {
 		// the same recipe in a top-down history: variable-size actions attached empty and grown afterwards. Only the
 		// top-level message is judged (its size and embedding are computed at encoding time); length fields that
